@@ -110,7 +110,7 @@ def run(ctx):
     n = 300 if ctx.tier == 'quick' else 5000
     for name, root, rs in cases(ctx, n):
         one_case(ctx, name, root, rs)
-        if ctx.n_new() >= 3:
+        if ctx.n_new(with_input_only=True) >= 3:
             break
 
 
